@@ -1244,3 +1244,10 @@ PROPS["C05"]["rule"] += (" || c05m: the schedule-controlled runs of the real PDU
                          "contents of a slot when the receive side hands its claim back (frame rejected) equal the contents at the claim; no panic")
 PROPS["C05"]["assumptions"] = [a for a in PROPS["C05"]["assumptions"] if not a.startswith("sequential delivery")] + [
     "the sequential harness delivers frames between whole API calls; interleavings of receive_frame with other tasks are exercised by c05m (and C01/C02)"]
+
+# C13: the initialisation steps built on the EEPROM queries (added after seed C13e)
+PROPS["C13"]["harness"].append("c13i")
+PROPS["C13"].setdefault("drivers", {})["c13i"] = "drv_c13"
+PROPS["C13"]["rule"] += (" || c13i (monitor only, no model prediction): the REAL MainDevice::init + into_op against a simulated SubDevice whose EEPROM "
+                         "is all ones / all zeros / noise / a well-formed image with noisy categories or boundary bytes / an unnamed device with "
+                         "large identity words, 4- and 8-byte SII: a value or an error within the executor's step limit, never a panic")
